@@ -289,3 +289,106 @@ def ctrltarget_rule(ctx, prop, which):
             elif not target_ok and any(w == "controller" for w, _ in order):
                 ctx.violation(rid, "%s|controller-after-mismatch" % c, fi.file, fi.line,
                               "%s visit_control_operator(.%s) consults the controller although the target type rejected the document" % (which, c.lower()))
+
+
+def _ident_run(ctx, which, state_update, ident_name, on_fn, scripts):
+    """run visit_identifier of one validator on an opaque scalar document with the given state and scripted callees"""
+    f = ctx.facts
+    fi = vt.visitor_fn(f, which, "visit_identifier")
+    doc = ("enum", "Value::Number" if which == "json" else "Value::Integer", [absint.OPAQUE])
+    obj = vt.self_obj(which, doc)
+    st = obj[2]["state"][2]
+    st.update({"occurrence": ("None",), "is_member_key": False, "is_colon_shortcut_present": False, "data_location": ("str", ""),
+               "visited_rules": absint.PyMap(), "is_cut_present": False, "eval_generic_rule": ("None",), "generic_rules": absint.MutList()})
+    st.update(state_update)
+    r = vt.Run(f, which, "default", {}, {"self": obj, "ident": ("enum", "Identifier", {"ident": ("str", ident_name), "socket": ("None",)})}, scripts=scripts)
+    base = r.on_call
+
+    def on_call(kind, name, node, args, recv, base=base):
+        if kind == "fn" and name:
+            v = on_fn(name.split("::")[-1], args)
+            if v is not NotImplemented:
+                return v
+        return base(kind, name, node, args, recv)
+    r.it.on_call = on_call
+    return fi, r, obj
+
+
+def revisit_rule(ctx, prop, which):
+    rid = "%s.revisit" % prop
+    ctx.rule(rid, "visit_identifier (%s) on a name whose rule is already being validated at the same position of the document (the key "
+                  "`name NUL location` is in visited_rules): the rule is not visited again, an error is recorded and Ok is returned — a "
+                  "reference that returns to itself without consuming input denotes no value (`a = b`, `b = a` matches nothing); the same "
+                  "for a name defined only by `/=` increments (abstract evaluation, lookups scripted)" % which.upper(), floor=2)
+    for label, base_rule in (("base rule", True), ("only /= increments", False)):
+        visited = absint.PyMap()
+        visited[absint.hkey(("str", "a\x00"))] = None
+        calls = []
+
+        def on_fn(b, args, base_rule=base_rule):
+            if b == "rule_from_ident":
+                return ("Some", ("enum", "Rule::Type", {"rule": absint.OPAQUE})) if base_rule else ("None",)
+            if b == "type_choice_types_from_ident":
+                return absint.MutList([absint.OPAQUE])
+            if b == "format":
+                return NotImplemented
+            if b.startswith("is_ident_") or b.startswith("ident_"):
+                return False
+            return NotImplemented
+
+        def visit_rule(run, node, recv, calls=calls):
+            calls.append(node["m"])
+            return ("Ok", ("tuple", []))
+        scripts = {"visit_rule": visit_rule, "visit_named_type_choice": visit_rule}
+        fi, r, obj = _ident_run(ctx, which, {"visited_rules": visited}, "a", on_fn, scripts)
+
+        def fmt_macro(kind, name, node, args, recv, prev=r.it.on_call):
+            if kind == "macro" and name == "format" and node.get("args") and "{}\\u{0}{}" in (node["args"][0].get("s") or ""):
+                return ("str", "a\x00")
+            return prev(kind, name, node, args, recv)
+        r.it.on_call = fmt_macro
+        key = "%s|%s" % (which, label)
+        try:
+            res = r.run(fi.node)
+        except absint.Unknown as e:
+            ctx.incomplete_msg(rid, "%s: %s" % (key, e))
+            continue
+        ctx.site(rid, key, fi.file, fi.line, {"errors": r.errors, "visits": list(calls), "result": repr(res)[:30]})
+        if calls:
+            ctx.violation(rid, key + "|revisits", fi.file, fi.line, "%s visit_identifier visits the rule again although it is already being validated at this "
+                          "position (%s): zero-progress recursion does not terminate" % (which, label))
+        elif r.errors == 0:
+            ctx.violation(rid, key + "|accepts", fi.file, fi.line, "%s visit_identifier returns %r with no error recorded when the rule is already being "
+                          "validated at this position (%s): `a = b`, `b = a` accepts every document" % (which, res, label))
+
+
+def argctx_rule(ctx, prop, which):
+    rid = "%s.argctx" % prop
+    ctx.rule(rid, "visit_identifier (%s) on a generic parameter of the rule being evaluated: the bound argument is visited with the generic "
+                  "evaluation context of the place where the instantiation was written, not with the context of the instantiated rule — "
+                  "otherwise an argument that mentions a parameter of the caller (`c<t> = b<t>`, `c<u> = b<u>`) is looked up in the wrong "
+                  "scope (abstract evaluation; the context seen by the scripted visit of the argument is observed)" % which.upper(), floor=1)
+    seen = []
+    gr = ("enum", "GenericRule", {"name": ("str", "b"), "params": absint.MutList([("str", "t")]), "args": absint.MutList([("arg-of-t",)])})
+
+    def visit_arg(run, node, recv, seen=seen):
+        st = recv[2]["state"][2] if isinstance(recv, tuple) and len(recv) == 3 and isinstance(recv[2], dict) and "state" in recv[2] else None
+        seen.append((run.it.eval(node["a"][0]), st.get("eval_generic_rule") if st else None))
+        return ("Ok", ("tuple", []))
+    scripts = {"visit_type1": visit_arg, "visit_type": visit_arg, "visit_type2": visit_arg}
+    fi, r, obj = _ident_run(ctx, which, {"eval_generic_rule": ("Some", ("str", "b")), "generic_rules": absint.MutList([gr])}, "t",
+                            lambda b, args: NotImplemented, scripts)
+    key = "%s|param-of-current-rule" % which
+    try:
+        res = r.run(fi.node)
+    except absint.Unknown as e:
+        ctx.incomplete_msg(rid, "%s: %s" % (key, e))
+        return
+    ctx.site(rid, key, fi.file, fi.line, {"argument_visits": [(repr(a)[:30], repr(c)) for a, c in seen], "result": repr(res)[:30]})
+    hits = [c for a, c in seen if a == ("arg-of-t",)]
+    if not hits:
+        ctx.violation(rid, key + "|unbound", fi.file, fi.line, "%s visit_identifier does not visit the argument bound to parameter `t` of the rule being evaluated" % which)
+    elif any(c == ("Some", ("str", "b")) for c in hits):
+        ctx.violation(rid, key, fi.file, fi.line, "%s visit_identifier visits the argument bound to parameter `t` of `b` while `b` is still the generic "
+                      "evaluation context: a parameter of the caller inside the argument is resolved against b's own parameters "
+                      "(`c<t> = b<t>` never terminates, `c<u> = b<u>` looks for a rule named u)" % which)
